@@ -211,7 +211,8 @@ def run_impl(files: dict, loads: list, root: str, interleave: bool = False, ops=
            "heap": model input term (abstracted before the first op), "obs": [per-op observation], "states": [...]}"""
     import griffe
     write_packages(files, root)
-    rec = {"stage": None, "fail": None, "heap": None, "obs": [], "states": [], "pre_unstable": False, "mid": []}
+    rec = {"stage": None, "fail": None, "heap": None, "obs": [], "states": [], "pre_unstable": False, "mid": [],
+           "structs": [], "leaked": []}
     loader = griffe.GriffeLoader(search_paths=[root], allow_inspection=False)
     rec["loader"] = loader
 
@@ -258,6 +259,8 @@ def run_impl(files: dict, loads: list, root: str, interleave: bool = False, ops=
                 rec["stage"], rec["fail"] = f"op{len(rec['obs'])}:resolve", r
                 return rec
             rec["obs"].append(["resolve", sorted(r[1][0]), r[1][1]])
+            rec["structs"].append(structure(loader))          # the whole tree, not only the aliases of the snapshot
+            rec["leaked"].append(leaked_wildcards(loader))
         else:
             out = []
             for i in snap.alias_ids():
@@ -319,6 +322,81 @@ def wildcard_family(mods, name, targets):
         yield files
 
 
+LEAVES = ["a", "b", "s", "c"]
+
+
+def bound_names(lines):
+    """Names bound so far by the import/def lines of a generated module (source level)."""
+    import ast
+    out = []
+    for node in ast.parse("\n".join(lines)).body:
+        if isinstance(node, (ast.Import, ast.ImportFrom)):
+            out += [(a.asname or a.name).split(".")[0] for a in node.names if a.name != "*"]
+        elif isinstance(node, (ast.FunctionDef, ast.ClassDef)):
+            out.append(node.name)
+    return out
+
+
+def export_line(rng, names, lines):
+    """`__all__` as a literal list, or built from other modules' `__all__` (`x.__all__ + [...]`, `+=`, starred): the
+    references expand_exports follows, through whatever the name is bound to (module, module alias, anything else)."""
+    lit = repr([rng.choice(names) for _ in range(rng.randint(0, 2))])
+    r = rng.random()
+    if r < 0.4:
+        return f"__all__ = {lit}"
+    pool = bound_names(lines) or names
+    ref = rng.choice(pool) if rng.random() < 0.8 else rng.choice(names + LEAVES + ["K", "zz", "__all__"])
+    ref = ref if ref == "__all__" else ref + ".__all__"
+    if r < 0.65:
+        return f"__all__ = {ref} + {lit}"
+    if r < 0.8:
+        return f"__all__ = {lit}\n__all__ += {ref}"
+    if r < 0.9:
+        return f"__all__ = [*{ref}, *{lit}]"
+    return f"__all__ = {ref} + {rng.choice(pool)}.__all__"
+
+
+def exports_family(rng, mods=("p", "p.a", "p.b")):
+    """Structured family for expand_exports: every module binds names to the other modules (and to itself) by one of
+    several routes - the real submodule path, a re-export of another module (a module alias, possibly a chain of them),
+    `import .. as` - and builds its `__all__` from the `__all__` of the modules those names denote.  Reference cycles,
+    cycles that only exist through module aliases, self references and dangling references all occur."""
+    leaf = {m: (m.split(".")[-1] if "." in m else "pp") for m in mods}
+    files = {}
+    for m in mods:
+        lines, bound = [], []
+        for t in mods:
+            if rng.random() < 0.35:
+                continue
+            n = leaf[t]
+            route = rng.random()
+            if route < 0.3:
+                lines.append(f"import {t} as {n}")                                   # the module itself
+            elif route < 0.5 and "." in t:
+                lines.append(f"from {t.rsplit('.', 1)[0]} import {n}")               # real submodule of its package
+            elif route < 0.9:
+                lines.append(f"from {rng.choice([o for o in mods if o != t] or list(mods))} import {n}")   # re-export by another module
+            else:
+                lines.append(f"from {rng.choice(list(mods))} import {rng.choice(list(leaf.values()))} as {n}")
+            bound.append(n)
+        lines.append(f"class X{leaf[m]}: ...")
+        r = rng.random()
+        lit = f"['X{leaf[m]}']"
+        refs = bound or ["zz"]
+        if r < 0.15:
+            pass
+        elif r < 0.3:
+            lines.append(f"__all__ = {lit}")
+        elif r < 0.7:
+            lines.append(f"__all__ = {rng.choice(refs)}.__all__ + {lit}")
+        elif r < 0.85:
+            lines.append(f"__all__ = {lit}\n__all__ += {rng.choice(refs)}.__all__")
+        else:
+            lines.append(f"__all__ = {rng.choice(refs)}.__all__ + {rng.choice(refs)}.__all__ + {lit}")
+        files[m] = "\n".join(lines) + "\n"
+    return files
+
+
 def random_graph(rng, mods, names, pkgs=("p",), p_wild=0.18, p_through=0.2, maxlines=4):
     """Random import graph: definitions, from-imports (plain, renamed, relative, through an alias member, from missing
     modules and from other packages), plain imports, wildcard imports, __all__, a class that imports in its body."""
@@ -344,8 +422,9 @@ def random_graph(rng, mods, names, pkgs=("p",), p_wild=0.18, p_through=0.2, maxl
             elif k < 0.30:
                 lines.append(f"class K:\n    {rng.choice(names)} = 1\n    from {tgt} import {rng.choice(names)}")
             elif k < 0.58:
-                src = rng.choice(names + ["K"])
-                lines.append(f"from {tgt} import {src} as {nm}" if rng.random() < .5 else f"from {tgt} import {nm}")
+                src = rng.choice(names + ["K"]) if rng.random() < .8 else rng.choice(LEAVES)   # sometimes a (re-exported) submodule
+                lines.append(f"from {tgt} import {src} as {nm}" if rng.random() < .5 else
+                             f"from {tgt} import {src if src in LEAVES else nm}")
             elif k < 0.58 + p_wild:
                 lines.append(f"from {tgt} import *")
             elif k < 0.86:
@@ -360,7 +439,7 @@ def random_graph(rng, mods, names, pkgs=("p",), p_wild=0.18, p_through=0.2, maxl
                 else:
                     lines.append(f"from .. import {leaf}")
             elif k < 0.91:
-                lines.append(f"__all__ = {[rng.choice(names) for _ in range(rng.randint(0, 2))]!r}")
+                lines.append(export_line(rng, names, lines))
             else:
                 lines.append(f"import {tgt}" + (f" as {nm}" if rng.random() < .6 else ""))
         files[m] = "\n".join(lines) + "\n"
@@ -467,6 +546,16 @@ def evaluate(ctx, files, loads, rec, case):
         ctx.property_failure(case, {"fixpoint": "return value", "first": u1, "second": u2}, finding=None)
     if obs[1][2] > 2:
         ctx.property_failure(case, {"fixpoint": "second call needed more than 2 iterations", "iterations": obs[1][2]}, finding=None)
+    s1, s2 = rec["structs"][-3], rec["structs"][-2]
+    if s1 != s2:
+        # the second call changed the tree itself (members added / replaced, target paths rewritten).  C06-F8 only: a
+        # wildcard pseudo-member re-imported by another wildcard is there (its target path grows at every expansion)
+        leaked = rec["leaked"][-3]
+        known = "C06-F8" if (leaked and "C06-F8" in ctx.known) else None
+        ctx.observe("tree_changed_by_second_call", known or "unclassified")
+        diff = [[a, b] for a, b in zip(s1[1], s2[1]) if a != b][:3]
+        ctx.property_failure(case, {"fixpoint": "second resolve_aliases changed the tree", "leaked_wildcards": leaked[:4],
+                                    "first_difference": diff, "nodes": [len(s1[1]), len(s2[1])]}, finding=known)
     ctx.observe("iterations_first", obs[0][2])
     rec["attributed"] = sorted({f for f in partial.values() if f})
     return True
@@ -601,93 +690,254 @@ def random_external(rng):
     return files
 
 
+def random_external_wild(rng):
+    """Like random_external, with wildcard imports between the packages (side-loading happens inside expand_wildcards
+    as well as inside resolve_module_aliases, and the side-loaded package may wildcard-import back)."""
+    mods = [m for ms in EXT_MODS.values() for m in ms]
+    files = {}
+    for m in mods:
+        lines = []
+        for _ in range(rng.randint(1, 3)):
+            nm = rng.choice(NAMES[:2])
+            k = rng.random()
+            if k < 0.3:
+                lines.append(f"def {nm}(): ...")
+            elif k < 0.55:
+                lines.append(f"from {rng.choice(mods + ['zz'])} import *")
+            else:
+                src = rng.choice(NAMES[:2])
+                lines.append(f"from {rng.choice(mods + ['zz'])} import {src}" + ("" if src == nm else f" as {nm}"))
+        files[m] = "\n".join(lines) + "\n"
+    return files
+
+
+def tree_aliases(loader):
+    """Every alias reachable as a declared member from the collection (live objects)."""
+    out, seen, stack = [], set(), list(loader.modules_collection.members.values())
+    while stack:
+        o = stack.pop()
+        if id(o) in seen:
+            continue
+        seen.add(id(o))
+        if o.is_alias:
+            out.append(o)
+        else:
+            stack.extend(o.members.values())
+    return out
+
+
+def leaked_wildcards(loader):
+    """Wildcard pseudo-members (`pkg/mod/*`) that a wildcard expansion re-imported as if they were names of the target
+    module: an alias named `.../*` whose target is itself a pseudo-member (the visitor's own ones target a module)."""
+    return sorted(a.path for a in tree_aliases(loader) if a.name.endswith("/*") and a.target_path.endswith("/*"))
+
+
+def unexpanded_wildcards(loader):
+    """[path, target path] of the wildcard imports still standing as pseudo-members (the visitor's own ones)."""
+    return sorted([a.path, a.target_path] for a in tree_aliases(loader)
+                  if a.name.endswith("/*") and not a.target_path.endswith("/*"))
+
+
+def pending_wildcards(unexpanded, new_packages):
+    """Wildcard imports still unexpanded although the package they import from, or the package they sit in, was loaded
+    during the call that just returned (the call expanded wildcards only before its loop, on the packages it started with)."""
+    return [p for p, t in unexpanded if t.split(".")[0] in new_packages or p.split(".")[0] in new_packages]
+
+
+def shape(loader):
+    """structure() without the stored links (dereferencing between two calls stores links lazily)."""
+    coll, nodes = structure(loader)
+    return [coll, [n[:3] + [None] + n[4:] if n[0] == "alias" else n for n in nodes]]
+
+
+class LoaderTrace:
+    """Wraps the public methods resolve_aliases looks up on the loader instance.  Records top-level visits, side-loads,
+    and re-entrancy: expand_wildcards / resolve_module_aliases entered on an object whose members an enclosing frame of
+    the same kind of traversal is iterating over, with a load() in between."""
+
+    def __init__(self, loader):
+        self.events = []                     # ("S"/"V", module[, n]) top-level resolve_module_aliases, ("L", package)
+        self.stack = []                      # ("expand" | "resolve" | "load", path)
+        self.reentered = []                  # paths whose members were being iterated when a nested expansion reached them
+        self.orig = (loader.resolve_module_aliases, loader.load, loader.expand_wildcards)
+        orig_rma, orig_load, orig_exp = self.orig
+
+        def rma(obj, *, implicit=False, external=None, seen=None, load_failures=None):
+            if seen is None:
+                self.events.append(("S", obj.path))
+            self.stack.append(("resolve", obj.path))
+            try:
+                res = orig_rma(obj, implicit=implicit, external=external, seen=seen, load_failures=load_failures)
+            finally:
+                self.stack.pop()
+            if seen is None:
+                self.events.append(("V", obj.path, len(res[0])))
+            return res
+
+        def load(*a, **k):
+            self.events.append(("L", str(a[0]) if a else None))
+            self.stack.append(("load", str(a[0]) if a else None))
+            try:
+                return orig_load(*a, **k)
+            finally:
+                self.stack.pop()
+
+        def expand(obj, *, external=None, seen=None):
+            path = obj.path
+            last_load = max((k for k, fr in enumerate(self.stack) if fr[0] == "load"), default=-1)
+            if any(fr[0] in ("expand", "resolve") and fr[1] == path for fr in self.stack[:max(last_load, 0)]):
+                self.reentered.append(path)
+            self.stack.append(("expand", path))
+            try:
+                return orig_exp(obj, external=external, seen=seen)
+            finally:
+                self.stack.pop()
+
+        loader.resolve_module_aliases, loader.load, loader.expand_wildcards = rma, load, expand
+
+
 def run_external(ctx, files, loads, external, label):
+    """Implementation vs property with packages side-loaded during resolve_aliases (three calls)."""
     import griffe
     root = str(ctx.scratch / "ext")
     write_packages(files, root)
     case = {"files": files, "loads": loads, "external": external, "stream": label}
     ctx.case(case, True)
     ctx.observe("stream", label)
-    loader = griffe.GriffeLoader(search_paths=[root], allow_inspection=False)
+    has_wild = graph_features(files)["has_wildcard"]
+    expanded_ids = set()                              # aliases created (already linked) by wildcard expansion
+
+    class Recorder(griffe.Extension):
+        def on_wildcard_expansion(self, *, alias, loader, **kwargs):  # noqa: ARG002
+            expanded_ids.add(id(alias))
+            keep.append(alias)                        # keep the object alive: ids must stay unique
+
+    keep = []
+    loader = griffe.GriffeLoader(search_paths=[root], allow_inspection=False, extensions=griffe.load_extensions(Recorder))
     calls = []
-    trace = []                                       # ("V", module, #resolved) top-level visits, ("L", package) side-loads
-    orig_rma, orig_load = loader.resolve_module_aliases, loader.load
-
-    def rma(obj, *, implicit=False, external=None, seen=None, load_failures=None):
-        if seen is None:
-            trace.append(("S", obj.path))
-        res = orig_rma(obj, implicit=implicit, external=external, seen=seen, load_failures=load_failures)
-        if seen is None:
-            trace.append(("V", obj.path, len(res[0])))
-        return res
-
-    def load(*a, **k):
-        trace.append(("L", str(a[0]) if a else None))
-        return orig_load(*a, **k)
 
     def fail(what, detail, finding=None):
+        if finding is not None and finding not in ctx.known:
+            finding = None                            # a repaired finding has no classifier any more
         ctx.property_failure(case, {"side_loading": what, **detail}, finding=finding)
 
+    def escape(what, r):
+        """Something left load()/resolve_aliases().  C06-F6: the members dict of an object was changed by a nested
+        expansion (reached through a side-load) while an enclosing frame iterates over it."""
+        iter_err = r[0] == "raise" and (
+            (r[1][0] == "RuntimeError" and "changed" in r[2] and "during iteration" in r[2]) or
+            (r[1][0] == "KeyError" and r[1][1][-1:] == ["del_member"] and r[2].strip("'\"").endswith("/*")))
+        known = "C06-F6" if (iter_err and trace.reentered and
+                             any(f in ("expand_wildcards", "resolve_module_aliases") for f in r[1][1])) else None
+        ctx.observe("side_loading_escape", (r[1][0] if r[0] == "raise" else r[0]) + ("/reentrant" if trace.reentered else ""))
+        return fail(what, {"outcome": r[:3], "reentered": trace.reentered[:3]}, finding=known)
+
+    trace = LoaderTrace(loader)                         # public methods, looked up on the instance by resolve_aliases
     for pkg in loads:
         r = guarded(lambda: loader.load(pkg, try_relative_path=False))
         if r[0] != "ok":
-            return fail("load raised", {"outcome": r[:3]})
+            return escape("load raised", r)
     snap = None
     unreached = []
-    loader.resolve_module_aliases, loader.load = rma, load      # public methods, looked up on the instance by resolve_aliases
+    packages = sorted(loader.modules_collection.members)
+    first_trace = []
     for k in range(3):
         if k == 1:
-            first_trace = list(trace)
+            first_trace = list(trace.events)
         r = guarded(lambda: loader.resolve_aliases(implicit=True, external=external))
         if r[0] != "ok":
-            return fail(f"resolve_aliases call {k + 1} raised", {"outcome": r[:3]})
+            return escape(f"resolve_aliases call {k + 1} raised", r)
         if snap is None:
             snap = Snapshot(loader)                    # after the first call: includes what it side-loaded
-        calls.append((sorted(r[1][0]), r[1][1], snap.state(), sorted(loader.modules_collection.members)))
+        now = sorted(loader.modules_collection.members)
+        unexp = unexpanded_wildcards(loader)
+        calls.append({"unresolved": sorted(r[1][0]), "iterations": r[1][1], "state": snap.state(), "collection": now,
+                      "structure": structure(loader), "shape": shape(loader), "unexpanded": [p for p, _ in unexp],
+                      "pending": pending_wildcards(unexp, set(now) - set(packages)), "leaked": leaked_wildcards(loader)})
+        packages = now
         if k == 1:
             for i in snap.alias_ids():
                 d = guarded(lambda i=i: deref(snap.objs[i]))
-                path, tgt = snap.nodes[i][1], calls[1][2][snap.alias_ids().index(i)][1]
+                path, tgt = snap.nodes[i][1], calls[1]["state"][snap.alias_ids().index(i)][1]
                 if d[0] != "ok" or d[1][0] not in ("ok", "are", "cyc"):
                     return fail("dereference", {"alias": path, "outcome": d[:3]})
                 ctx.observe("side_loaded_deref", d[1][0] + ("/resolved" if tgt else "/unresolved"))
                 if tgt and d[1][0] != "ok":
-                    fail("resolved alias does not dereference", {"alias": path, "outcome": d[1]})
-                if not tgt and d[1][0] == "ok" and in_tree(snap, i):
+                    # C06-F3 only: the stored chain runs through an alias that wildcard expansion created already linked
+                    chain, o = [], snap.objs[i]
+                    while o.is_alias and o._target is not None and id(o) not in chain and len(chain) < 64:
+                        chain.append(id(o))
+                        o = o._target
+                    f3 = "C06-F3" if any(c in expanded_ids for c in chain) else None
+                    ctx.observe("side_loaded_partial_chain", f3 or "unclassified")
+                    fail("resolved alias does not dereference", {"alias": path, "outcome": d[1]}, finding=f3)
+                if not tgt and d[1][0] == "ok" and in_tree(snap, i) and not snap.nodes[i][5]:
                     unreached.append(path)
-    ctx.observe("side_loaded_packages", len(calls[0][3]) - len(loads))
-    if calls[0][0] != calls[1][0] or calls[0][2] != calls[1][2] or calls[0][3] != calls[1][3] or calls[1][1] > 2:
-        changed = [b[0] for a, b in zip(calls[0][2], calls[1][2]) if a != b]
+    ctx.observe("side_loaded_packages", len(calls[0]["collection"]) - len(loads))
+
+    def same(a, b, strict=True):
+        return all(a[f] == b[f] for f in (("unresolved", "collection", "structure", "state") if strict else
+                                          ("unresolved", "collection", "shape")))
+
+    def known_cause(a, b):
+        """C06-F7: a wildcard import of / from a package loaded during call a was left standing and expanded by call b.
+        C06-F8: a re-imported wildcard pseudo-member is there, whose target path grows at every call."""
+        if any(p not in b["unexpanded"] for p in a["pending"]):
+            return "C06-F7"
+        return "C06-F8" if a["leaked"] else None
+
+    if not same(calls[0], calls[1]) or calls[1]["iterations"] > 2:
+        changed = [b[0] for a, b in zip(calls[0]["state"], calls[1]["state"]) if a != b]
         starts = [n for n, ev in enumerate(first_trace) if ev[0] == "S" and ev[1] == loads[0]]
         last = first_trace[starts[-1]:] if starts else []
-        fail("second resolve_aliases is not a no-op", {"first": calls[0][:2], "second": calls[1][:2], "links_changed": changed,
-                                                        "collection": [calls[0][3], calls[1][3]],
-                                                        "last_iteration_of_first_call": last}, finding=None)
+        # C06-F7: wildcard imports of / from packages loaded during the first call were left to the second call
+        # C06-F8: a re-imported wildcard pseudo-member gets a longer target path at every call
+        known = known_cause(calls[0], calls[1])
+        ctx.observe("side_loading_not_fixpoint", known or "unclassified")
+        fail("second resolve_aliases is not a no-op",
+             {"first": [calls[0]["unresolved"], calls[0]["iterations"]], "second": [calls[1]["unresolved"], calls[1]["iterations"]],
+              "links_changed": changed, "collection": [calls[0]["collection"], calls[1]["collection"]],
+              "structure_changed": calls[0]["structure"] != calls[1]["structure"],
+              "pending_wildcards_after_first": calls[0]["pending"][:4], "leaked_wildcards": calls[0]["leaked"][:4],
+              "last_iteration_of_first_call": last}, finding=known)
     elif unreached:
         fail("aliases left unresolved after two calls although they resolve", {"aliases": unreached})
-    if any(p for st in (calls[0][2], calls[1][2], calls[2][2]) for _, _, p in st):
+    if any(p for c in calls for _, _, p in c["state"]):
         fail("passed-through flag left set", {})
-    if calls[1][0] != calls[2][0] or calls[1][3] != calls[2][3]:
-        fail("third resolve_aliases differs from the second", {"second": calls[1][:2], "third": calls[2][:2]})
+    if not same(calls[1], calls[2], strict=False):
+        known = known_cause(calls[1], calls[2])
+        fail("third resolve_aliases differs from the second",
+             {"second": [calls[1]["unresolved"], calls[1]["iterations"]], "third": [calls[2]["unresolved"], calls[2]["iterations"]],
+              "pending_wildcards_after_second": calls[1]["pending"][:4], "leaked_wildcards": calls[1]["leaked"][:4]}, finding=known)
+    if has_wild:
+        ctx.count("side_loading_with_wildcards_evaluated")
 
 
 # --------------------------------------------------------------------------------------------------------------------
 # known-finding witnesses (replayed on the implementation on every run)
 # --------------------------------------------------------------------------------------------------------------------
 def replay_witnesses(ctx):
-    """The witness of the remaining known finding (C06-F3) must still reproduce on the implementation."""
+    """The witnesses of the known findings must still reproduce on the implementation (same classifier as in the streams)."""
     root = str(ctx.scratch / "wit")
     for fid, f in ctx.known.items():
-        files = f.get("witness", {}).get("files")
+        w = f.get("witness", {})
+        files = w.get("files")
         if not files:
             continue
-        rec = run_impl(files, f.get("witness", {}).get("loads", ["p"]), root)
+        if "external" in w:                              # side-loading findings: replayed through run_external
+            before = ctx.known_hits.get(fid, 0)
+            run_external(ctx, files, w.get("loads", ["p"]), w["external"], "witness(side-loading)")
+            ctx.witness(fid, ctx.known_hits.get(fid, 0) > before)
+            continue
+        rec = run_impl(files, w.get("loads", ["p"]), root)
         ok = False
-        if rec["stage"] is None:
+        if rec["stage"] is None and fid == "C06-F3":
             snap = rec["snap"]
             for i, (path, tgt, _), d in zip(snap.alias_ids(), rec["states"][2], rec["obs"][2][1]):
                 if tgt and d[0] in ("are", "cyc") and classify_partial(snap, i) == fid:
                     ok = True
+        if rec["stage"] is None and fid == "C06-F8":
+            ok = bool(rec["leaked"][0]) and rec["structs"][0] != rec["structs"][1]
         ctx.witness(fid, ok)
 
 
@@ -735,6 +985,10 @@ def explore(ctx):
               "random(5 modules, no wildcard)")
     mods6 = MODS5 + ["p.b2"]
     run_batch(ctx, [(random_graph(rng, mods6, NAMES + ["w"], maxlines=5), ["p"], False) for _ in range(n // 3)], "random(6 modules)")
+    # 3b. `__all__` built from other modules' `__all__` through module aliases (expand_exports is part of load())
+    run_batch(ctx, [(exports_family(rng), ["p"], False) for _ in range(ctx.budget(500, 6000))], "exports-family(3 modules)")
+    run_batch(ctx, [(exports_family(rng, ("p", "p.i", "p.i.a", "p.i.b")), ["p"], False) for _ in range(ctx.budget(200, 3000))],
+              "exports-family(4 modules)")
     # 4. all load orders of <= 3 packages into one collection, with and without resolution between the loads
     batch = []
     for _ in range(ctx.budget(60, 600)):
@@ -750,6 +1004,15 @@ def explore(ctx):
             run_external(ctx, files, [rng.choice(["p", "q", "_p"])], True, "side-loading(external=True)")
         else:
             run_external(ctx, files, ["p"], None, "side-loading(external=None, _p)")
+        if len(ctx.prop_failures) >= 20:
+            break
+    # 5b. the same with wildcard imports between the packages (side-loads inside expand_wildcards, packages importing back)
+    for k in range(ctx.budget(250, 3000)):
+        files = random_external_wild(rng)
+        if k % 2:
+            run_external(ctx, files, [rng.choice(["p", "q", "_p"])], True, "side-loading+wildcards(external=True)")
+        else:
+            run_external(ctx, files, ["p"], None, "side-loading+wildcards(external=None, _p)")
         if len(ctx.prop_failures) >= 20:
             break
     if not ctx.quick:
